@@ -61,16 +61,32 @@ def conversion_check(case):
     import cdd.docstring.emit
     import cdd.docstring.parse
 
-    src_style, tgt_style, header, indent = case
+    src_style, tgt_style, header, indent = case[:4]
+    variant = case[4] if len(case) > 4 else "full@docstring"
+    shape, route = variant.split("@")
     sections = {
         "rest": ":param a: the a\n:type a: ```int```\n\n:param b: the b. Defaults to 5\n:type b: ```int```\n\n:return: r\n:rtype: ```str```\n",
         "google": "Args:\n  a (int): the a\n  b (int): the b. Defaults to 5\n\nReturns:\n  str: r\n",
         "numpydoc": "Parameters\n----------\na : int\n    the a\nb : int\n    the b. Defaults to 5\n\nReturns\n-------\nstr\n    r\n",
     }
+    if shape == "last-line-field":
+        # the parameter section is ONE field line and that line is the last of the docstring, closing quotes right behind it
+        sections = {"rest": ":param a: the a", "google": "Args:\n  a: the a", "numpydoc": "Parameters\n----------\na : int\n    the a"}
+    elif shape == "one-field":
+        sections = {"rest": ":param a: the a\n", "google": "Args:\n  a: the a\n", "numpydoc": "Parameters\n----------\na : int\n    the a\n"}
     doc = header + "\n\n" + sections[src_style]
     doc = "".join(indent + l if l.strip() else l for l in doc.splitlines(True))
     try:
-        ir = cdd.docstring.parse.docstring(doc, parse_original_whitespace=True)
+        if route == "function":
+            # the route doctrans takes: the parser keeps the original text in the description it returns
+            import ast as _ast
+
+            import cdd.function.parse
+
+            fn = _ast.parse("def f(a, b=5):\n    %r\n    return a\n" % ("\n" + "".join("    " + l if l.strip() else l for l in doc.splitlines(True)))).body[0]
+            ir = cdd.function.parse.function(fn)
+        else:
+            ir = cdd.docstring.parse.docstring(doc, parse_original_whitespace=True)
         out = cdd.docstring.emit.docstring(ir, docstring_format=tgt_style, indent_level=len(indent) // 4)
     except Exception as ex:
         return ("raise", "%s: %s" % (type(ex).__name__, ex))
@@ -133,6 +149,8 @@ def bounded(tier):
         for k, v in r[1].items():
             fails.setdefault(k, v)
     cases = [(a, b, h, i) for a in ("rest", "google", "numpydoc") for b in ("rest", "google", "numpydoc") for h in HEADERS for i in ("", "    ", "        ")]
+    cases += [(a, b, h, "", v) for a in ("rest", "google", "numpydoc") for b in ("rest", "google", "numpydoc") for h in HEADERS[:3] + HEADERS[5:6]
+              for v in ("full@function", "one-field@function", "last-line-field@function", "last-line-field@docstring", "one-field@docstring")]
     cres = common.pmap(conversion_check, cases)
     scases = [(a, h, i) for a in ("rest", "google", "numpydoc") for h in HEADERS for i in ("", "    ")]
     cases = cases + scases
@@ -140,6 +158,9 @@ def bounded(tier):
     cfails = {}
     for c, r in zip(cases, cres):
         if r and r[0] != "raise":
+            if len(c) == 5:
+                cfails.setdefault((r[0], c[0], c[1], c[4], HEADERS.index(c[2])), (c, r[1]))
+                continue
             cfails.setdefault((r[0], c[0], c[1] if len(c) == 4 else "-", len(c[-1]) // 4, HEADERS.index(c[-2])), (c, r[1]))
     return ev, fails, len(cases), cfails, n_max
 
@@ -156,7 +177,7 @@ def main(tier, write_baseline=False):
         ev, fails, ncases, cfails, n_max = bounded(tier)
         run.bounded.append({
             "name": "run-time contracts of the split on enumerated docstrings + conversion of generated docstrings (bounded, NOT counted as proved)",
-            "bound": "all docstrings of <= %d tokens over a %d-token alphabet at indent 0 and 1; %d conversions = 3 source styles x 3 target styles x %d headers x indent 0..2" % (n_max, len(TOKENS), ncases, len(HEADERS)),
+            "bound": "all docstrings of <= %d tokens over a %d-token alphabet at indent 0 and 1; %d conversions = 3 source styles x 3 target styles x %d headers x indent 0..2, plus 4 headers x {full, one-field, last-line-field sections} x {docstring.parse, function.parse (original text kept)} routes" % (n_max, len(TOKENS), ncases, len(HEADERS)),
             "rule": "distinct docstrings; non-trivial = contains a section token",
             "evaluations": ev + ncases, "distinct_nontrivial": ev + ncases - 2 * len(TOKENS),
             "failures": [{"kind": k[0], "input": v[0][:200], "what": v[1]} for k, v in list(fails.items())[:4]] + [{"kind": k[0], "case": list(v[0]), "what": v[1]} for k, v in list(cfails.items())[:4]],
@@ -220,7 +241,7 @@ def replay(path):
         print("%r -> %s" % (inp["docstring"][:200], r))
         return 1 if r else 0
     if "case" in inp:
-        r = (conversion_check if len(inp["case"]) == 4 else structured_split_check)(tuple(inp["case"]))
+        r = (conversion_check if len(inp["case"]) in (4, 5) else structured_split_check)(tuple(inp["case"]))
         print("%r -> %s" % (inp["case"], r))
         return 1 if r else 0
     return 1
